@@ -73,7 +73,44 @@ let res_str (f : 'a -> string) = function
 let fin_str = function FinOk -> "end" | FinCrash -> "crash" | FinFuel -> "fuel"
 let bool_str b = if b then "true" else "false"
 
+(* ---- secondary codec of characteristic signatures (Model/Tlv8Sig.v) ---- *)
+open Tlv8Sig
+let optb = function "_" -> None | h -> Some (bytes_of_hex h)
+let optn = function "_" -> None | d -> Some (n_of_dec d)
+let sval_str = function
+  | SInt z -> "i" ^ dec_of_z z | SBool b -> if b then "b1" else "b0"
+  | SText b -> "t" ^ hex_of_bytes b | SHex b -> "x" ^ hex_of_bytes b | SRaw b -> "r" ^ hex_of_bytes b
+  | SFloat b -> "f" ^ hex_of_bytes b | SNone -> "n"
+let sval_of (s : string) : sval =
+  let rest = Stdlib.String.sub s 1 (Stdlib.String.length s - 1) in
+  match s.[0] with
+  | 'i' -> SInt (z_of_dec rest) | 'b' -> SBool (rest = "1") | 't' -> SText (bytes_of_hex rest)
+  | 'x' -> SHex (bytes_of_hex rest) | 'r' -> SRaw (bytes_of_hex rest) | 'f' -> SFloat (bytes_of_hex rest)
+  | 'n' -> SNone | _ -> raise (Parse "sval")
+let perm_str = function PR -> "pr" | PW -> "pw" | EV -> "ev" | AA -> "aa" | TW -> "tw" | HD -> "hd"
+let fname_str = function FBool -> "bool" | FUint8 -> "uint8" | FUint16 -> "uint16" | FUint32 -> "uint32" | FUint64 -> "uint64"
+  | FInt -> "int" | FFloat -> "float" | FString -> "string" | FData -> "data"
+let uname_str = function UCelsius -> "celsius" | UArcdegrees -> "arcdegrees" | UPercentage -> "percentage" | ULux -> "lux" | USeconds -> "seconds"
+let opt f = function None -> "_" | Some x -> f x
+let sigout_str (o : sigout) : string =
+  Printf.sprintf "type=%s iid=%s perms=%s bcast=%d disc=%d format=%s unit=%s value=%s minstep=%s minmax=%s"
+    (dec_of_n o.o_type) (opt dec_of_n o.o_iid)
+    (Stdlib.String.concat "," (Stdlib.List.map perm_str o.o_perms))
+    (if o.o_bcast then 1 else 0) (if o.o_disc then 1 else 0)
+    (opt fname_str o.o_format) (opt uname_str o.o_unit) (opt sval_str o.o_value) (opt sval_str o.o_minstep)
+    (opt (fun (a, b) -> sval_str a ^ "/" ^ sval_str b) o.o_minmax)
+let variant_of = function "ble" -> Ble | "coap" -> Coap | _ -> raise (Parse "variant")
+
 let handle = function
+  | ["sig"; v; ty; iid; props; pf; range; step; raw] ->
+      res_str sigout_str (to_dict (variant_of v)
+        { s_type = n_of_dec ty; s_iid = optn iid; s_props = n_of_dec props; s_pf = optb pf;
+          s_range = optb range; s_step = optb step; s_raw = optb raw })
+  | ["unpack"; fmt; h] -> res_str sval_str (unpack_value (optn fmt) (bytes_of_hex h))
+  | ["pack"; fmt; x] -> res_str hex_of_bytes (pack_value (optn fmt) (sval_of x))
+  | ["good"; ids] ->
+      bool_str (Tlv8Exact.sequ16_good
+                  (if ids = "-" then [] else Stdlib.List.map n_of_dec (Stdlib.String.split_on_char ',' ids)))
   | ["wf"; t] -> bool_str (wf_schema (parse_all ty_p t))
   | ["fits"; t; v] -> bool_str (fits_msg (parse_all ty_p t) (parse_all val_p v))
   | ["enc"; t; v] -> res_str hex_of_bytes (tlv8_encode (parse_all ty_p t) (parse_all val_p v))
